@@ -9,6 +9,8 @@ NOTES = ("Model-based verification with explicit TLA+ specifications (spec/*.tla
          "Exit 0 held / 1 VIOLATION / 2 tool error. See DESIGN.md.")
 
 ENGINES = [
+    {"name": "h-ec", "path": "harness/h-ec", "serves_properties": ["C01", "C02", "C05", "C06", "C07", "C08", "C17", "C18", "C19"],
+     "kind_free_text": "Rust conformance harness for datacake-eventual-consistency and the storage backends"},
     {"name": "h-node", "path": "harness/h-node", "serves_properties": ["C11", "C15", "C16"],
      "kind_free_text": "Rust conformance harness for datacake-node: selector actor, membership watcher, clock actor"},
     {"name": "h-rpc", "path": "harness/h-rpc", "serves_properties": ["C12", "C13"],
@@ -113,4 +115,13 @@ CHECKS = {
               "is replayed on the real watcher task and a real subscriber, comparing delta contents and the accumulated map."),
         design_ref="DESIGN.md section 7 C16",
         note="Known findings C16-late-subscriber and C16-skipped-delta (latest-value channel of deltas) are recorded in known_findings.json; any other mismatch is a violation. Chitchat's own failure detection is outside the model."),
+    "C17": dict(
+        engine="tlc + h-ec",
+        technique="TLC exhaustive exploration of the reference model Storage.tla + replay of every transition on MemStore, SQLite (memory and file) and LMDB with read-back comparison",
+        text=("Storage.tla is the map-based reference model of the Storage trait (upsert puts, upsert tombstones, remove_tombstones, reopen). TLC "
+              "enumerates every call from every reachable state (2 500 states, 272 900 transitions); each transition is re-executed on the real "
+              "backends in fresh keyspaces with boundary ids / timestamps / payloads, and iter_metadata, get, multi_get and the keyspace list are "
+              "compared with the model's prediction; persistent backends are closed and reopened on the reopen edges (LMDB: new handle and real environment close)."),
+        design_ref="DESIGN.md section 7 C17",
+        note="Value space (u64 ids, payload bytes) covered by rotating boundary values, not exhaustively. Quick tier samples every 8th edge on SQLite/LMDB."),
 }
